@@ -94,6 +94,7 @@ func (ex *Exec) loopEnv(fr *Frame, st *State, h *ssa.BasicBlock, phiVals map[*ss
 		}
 	}
 	ex.applyAliases(env, fr.fn)
+	ex.applyBinds(env, fr, h)
 	return env
 }
 
